@@ -253,6 +253,63 @@ def verus_driver_source(repo):
 VERUS_LIFTS = {"conflict_block": verus_conflict_source, "driver_block": verus_driver_source}
 
 
+# ---------------------------------------------------------------------------
+# LR(1) closure: the `for item in &self.items { .. }` statement of LRState::closure that computes the items one closure
+# pass adds, with their lookahead (follow) sets.
+
+CLOSURE_DECLARED = ["first_sets", "new_items", "prod_rn_lengths", "self"]
+
+
+def closure_block_range(repo):
+    rel = "rustemo-compiler/src/table/mod.rs"
+    src = rsx.Source(os.path.join(repo, rel))
+    imp = src.find_impl(r"^impl < 'g > LRState < 'g >", has="closure")
+    fn = imp.child("fn", "closure")
+    t = src.toks
+    sig = "".join(x.text for x in t[fn.kw:fn.body_open] if x.kind not in ("ws", "comment"))
+    if sig != "fnclosure(&mutself,first_sets:&FirstSets,prod_rn_lengths:&Option<ProdVec<usize>>)":
+        raise ExtractError("closure block: signature of LRState::closure changed: %r" % sig)
+    fors = [i for i in range(fn.body_open, fn.body_close) if t[i].kind == "ident" and t[i].text == "for"
+            and norm_tokens_local(src, i, i + 12).startswith("foritemin&self.items{")]
+    if len(fors) != 1:
+        raise ExtractError("closure block: `for item in &self.items {` not found exactly once in LRState::closure")
+    lo = fors[0]
+    ob = lo
+    while t[ob].text != "{":
+        ob += 1
+    hi = src.match(ob) + 1
+    # the statement in front of the range declares new_items (its type is the lifted parameter's type)
+    k = lo
+    pre = []
+    while len(pre) < 40 and (not pre or pre[0] != "let"):
+        k = src.prev_sig(k)
+        pre.insert(0, t[k].text)
+    if "".join(pre) != "letmutnew_items:BTreeSet<LRItem>=BTreeSet::new();":
+        raise ExtractError("closure block: the declaration of new_items in front of the range changed: %r" % "".join(pre))
+    block_text = src.text[t[lo].s:t[hi - 1].e]
+    outside = bound_names_outside(src, fn, lo, hi)
+    used = set(idents(src, lo, hi))
+    inside = bound_names_inside(src, lo, hi)
+    free = sorted(((outside & used) - inside) | ({"self"} if "self" in used else set()))
+    if free != CLOSURE_DECLARED:
+        raise ExtractError(f"closure block: free variables changed: now {free}, declared {CLOSURE_DECLARED}")
+    sha = hashlib.sha256(block_text.encode()).hexdigest()[:16]
+    a, z = src.line_of(t[lo].s), src.line_of(t[hi - 1].e)
+    meta = {"lift": "closure_block", "file": rel, "lines": [a, z], "sha256_16": sha, "free_variables": CLOSURE_DECLARED,
+            "note": "`self` is `&mut self` in the source and `&self` here (the range only reads it); `new_items` is a local `BTreeSet<LRItem>` of the "
+                    "source function and a `&mut BTreeSet<LRItem>` parameter here (its only use is `new_items.insert(..)`)"}
+    header = ("impl<'g> LRState<'g> {\n    fn closure_block(\n        &self,\n        first_sets: &FirstSets,\n"
+              "        prod_rn_lengths: &Option<ProdVec<usize>>,\n        new_items: &mut BTreeSet<LRItem>,\n    ) {\n            ")
+    return header + block_text + "\n    }\n}\n", meta
+
+
+def norm_tokens_local(src, lo, hi):
+    return "".join(x.text for x in src.toks[lo:hi + 8] if x.kind not in ("ws", "comment"))
+
+
+VERUS_LIFTS["closure_block"] = closure_block_range
+
+
 def lift_conflict_block(repo, gen):
     block_text, then_body, meta = conflict_block_range(repo)
     rel, declared, sha = meta["file"], meta["free_variables"], meta["sha256_16"]
